@@ -937,6 +937,27 @@ func findRefreshFixpoint(p *Prog) (*ast.FuncDecl, *ast.ForStmt) {
 				id, ok := base.(*ast.Ident)
 				return ok && recv != nil && info.Uses[id] == recv
 			}
+			// a plain function applied to parts of the receiver (reachableFrom(w.root, w.graph))
+			argsOfRecv := func(call *ast.CallExpr) bool {
+				if len(call.Args) == 0 {
+					return false
+				}
+				for _, a := range call.Args {
+					base := ast.Unparen(a)
+					for {
+						inner, ok := base.(*ast.SelectorExpr)
+						if !ok {
+							break
+						}
+						base = ast.Unparen(inner.X)
+					}
+					id, ok := base.(*ast.Ident)
+					if !ok || recv == nil || info.Uses[id] != recv {
+						return false
+					}
+				}
+				return true
+			}
 			ast.Inspect(fd.Body, func(x ast.Node) bool {
 				fs, ok := x.(*ast.ForStmt)
 				if !ok {
@@ -948,7 +969,7 @@ func findRefreshFixpoint(p *Prog) (*ast.FuncDecl, *ast.ForStmt) {
 					switch n := y.(type) {
 					case *ast.AssignStmt:
 						if len(n.Lhs) == 1 && len(n.Rhs) == 1 {
-							if call, ok := ast.Unparen(n.Rhs[0]).(*ast.CallExpr); ok && onRecv(call) {
+							if call, ok := ast.Unparen(n.Rhs[0]).(*ast.CallExpr); ok && (onRecv(call) || argsOfRecv(call)) {
 								if t := info.TypeOf(n.Rhs[0]); t != nil {
 									if _, isMap := t.Underlying().(*types.Map); isMap {
 										if o := info.Defs[identOf(n.Lhs[0])]; o != nil {
